@@ -5,6 +5,8 @@ CONSTANTS Pkgs <- P2
  Under <- UnderRoot2
  RootPkg = "p"
  HashCoversSum = TRUE
+ SaveAlways = TRUE
+ KeepAfterDefers = TRUE
  BehChoices <- Beh2Small
  ArgsMenu <- Args2Quiet
  MaxRuns = 6
